@@ -317,6 +317,13 @@ pub fn family_programs() -> Vec<String> {
         "local a, a = nil, 1\nreturn a",
         "local a, a = 1, nil\nreturn a",
         "local a, b, a = nil, nil, 3\nreturn a, b",
+        "local a, unused, a = 1, 2\nreturn a",
+        "local a, unused, a = 1, E1()\nreturn a",
+        "local a, a, unused = 1, 2, 3\nreturn a",
+        "local unused, a, a = 1, 2\nreturn a",
+        "local a, unused, unused2, a = 1\nreturn a",
+        "local a, unused, a = 1, 2, 3\nreturn a",
+        "local function f(...) local a, unused, a = ... return a end\nreturn f(1, 2), f(1, 2, 3)",
         "local a = nil, E1()\nreturn a",
         "local a, b = nil, nil, E1()\nreturn a, b",
         "local unused = E1()\nlocal unused2 = t.k\nlocal u3, u4 = E1(), E1(2)\nlocal u5 = 1\nlocal u6 = function() E1(3) end\nreturn 1",
